@@ -39,11 +39,23 @@ package announce
 //@   property C16
 //@   requires recvOK(r) && !held(r.announceMutex) && ctx != nil
 
+// Delivery: the announcement is handed to the consumer only if the check
+// passed, at most once, with the announced CID and publisher unchanged (and the
+// addresses unchanged unless address filtering is on); it is republished iff
+// the check passed and resending was asked for.
 //@ func (*Receiver).handleAnnounce
 //@   property C16 C09
 //@   requires recvOK(r) && !held(r.announceMutex) && ctx != nil
 //@   shutdown done
+//@   ghost ok := false
+//@   at call announceCheck#1: after ghost ok := result == nil
+//@   at call announceCheck#1: assert arg1.Cid == amsg.Cid && arg1.PeerID == amsg.PeerID
+//@   at call republish#1: assert arg2.Cid == old(amsg.Cid) && arg2.PeerID == old(amsg.PeerID)
 //@   ensures-local count("send:outChan") <= 1
+//@   ensures-local !ok ==> count("send:outChan") == 0 && count("call:republish") == 0 && count("call:FilterPublic") == 0
+//@   ensures-local count("call:republish") == 1 <==> (ok && resend)
+//@   ensures-local count("send:outChan") == 1 ==> evarg("send:outChan", 1) == str(amsg.Cid.str) && evarg("send:outChan", 2) == str(amsg.PeerID)
+//@   ensures-local count("send:outChan") == 1 && !r.filterIPs ==> evarg("send:outChan", 5) == len(amsg.Addrs)
 
 // After close the duplicate filter is not touched; a rejected source never
 // reaches the mutex or the filter.
@@ -79,8 +91,27 @@ package announce
 //@   property C09
 //@   requires maxEntries >= 1
 //@   ensures result != nil && isfresh(result) && result.max == maxEntries && len(result.cache) == 0
-//@   ensures-assumed all(e, e != 0 ==> g_in(e) != result.ll)
+//@   ensures lruOK(result)
 //@   ensures result.cache != nil && result.ll != nil && g_size(result.ll) == 0
+
+// The duplicate filter remembers 64 CIDs.
+//@ func NewReceiver
+//@   property C09
+//@   at call newStringLRU#1: assert arg0 == 64
+
+// Pubsub loop: a republished message (original-peer field set) coming from this
+// host itself is ignored, otherwise it is attributed to the original publisher;
+// a first-hand message is attributed to its sender; the CID is the message's.
+//@ func (*Receiver).watch
+//@   property C09
+//@   requires recvOK(r) && !held(r.announceMutex) && ctx != nil && r.topicSub != nil && r.topic != nil && r.watchDone != nil && !closed(r.watchDone)
+//@   ghost src := ""
+//@   ghost orig := ""
+//@   at call IDFromBytes#1: after ghost src := str(result0)
+//@   at call Decode#1: after ghost orig := str(result0)
+//@   at call handleAnnounce#1: assert arg2.Cid == m.Cid && arg3 == false
+//@   at call handleAnnounce#1: assert ite(str(m.OrigPeer) != str(""), str(arg2.PeerID) == orig && src != str(r.hostID), str(arg2.PeerID) == src)
+//@   loop 1: invariant recvOK(r) && !held(r.announceMutex) && r.topicSub != nil && r.topic != nil && r.watchDone != nil && !closed(r.watchDone)
 
 //@ func (*stringLRU).len
 //@   property C09
